@@ -17,7 +17,7 @@ from .. import pb
 
 ID = "C20"
 ORACLE = "Oracle.C20"
-PROPS = "Props/C20.v"
+PROPS = ["Props/C20.v", "Props/C20gen.v"]
 LEVEL = "proof"
 SHARD = 40
 CODES = {
@@ -42,9 +42,9 @@ ASSUMPTIONS = [
     "calculate_effective_supports(final_budget=...) is excluded as a documented override",
     "CBC (priceable): answers re-validated; faults discarded",
 ]
-TRUSTED = ["Model/Effects.v is a hand-made summary of the writes of each entry point (modelled, not verified)",
+TRUSTED = ["effect summaries of the 19 entry points are REGENERATED from /repo's source on every run by the fail-closed ast translator harness/vharness/anchors_effects.py (its aliasing model, freshness rules and allow-list are the trusted base: DESIGN.md C20 addendum); Model/Effects.v additionally keeps hand-made summaries",
            "the harness snapshot function"]
-EXPLANATION = ("Theorem half (weak): in a small effect language with by-reference calls, every program whose writes "
+EXPLANATION = ("Theorem half, regenerated part (Props/C20gen.v): for the summary the translator derives from the CURRENT source of each of the 19 entry points, the verified boolean writes_only_fresh holds (by vm_compute), hence by the frame theorem the caller view is unchanged; re-introducing a write through a caller object breaks the named ok_<entry> lemma. Theorem half, hand-made part (weak): in a small effect language with by-reference calls, every program whose writes "
                "target only objects allocated by the call leaves the caller's objects unchanged; every entry point's "
                "hand-written effect summary is such a program; memo caches are transparent.  Decisive half: "
                "snapshot correspondence on the real code (pre = post after every call of a sequence) and equality of "
